@@ -1,5 +1,5 @@
 (* C36 — proofs. *)
-From Coq Require Import NArith List Bool Lia.
+From Coq Require Import NArith List Bool Lia PeanoNat.
 From Dolt Require Import Base.Str C36.Model C36.Spec C36.Corr.
 Import ListNotations.
 Local Open Scope N_scope.
@@ -170,13 +170,24 @@ Lemma space_ext_std x s c r : (c = c_comma \/ c = c_lf) ->
 Proof.
   intros Hc. unfold starts_space_std. f_equal. f_equal.
   unfold space_rune_len. cbn [app].
-  destruct s as [|y [|z s']]; cbn [app]; try reflexivity;
-    destruct Hc as [-> | ->]; unfold c_comma, c_lf;
-    repeat match goal with
-           | |- context [if ?b then _ else _] => destruct b
-           end; try reflexivity.
-  all: try (destruct y as [|p]; try reflexivity;
-            repeat (destruct p as [p|p|]; try reflexivity)).
+  destruct (((9 <=? x) && (x <=? 13)) || (x =? 32)); [reflexivity|].
+  destruct (x =? 194).
+  { destruct s as [|y s']; cbn [app]; [|reflexivity]. destruct Hc as [-> | ->]; reflexivity. }
+  destruct (x =? 225).
+  { destruct s as [|y [|z s']]; cbn [app]; try reflexivity.
+    - destruct Hc as [-> | ->]; reflexivity.
+    - destruct Hc as [-> | ->]; unfold c_comma, c_lf;
+        destruct y as [|p]; try reflexivity; repeat (destruct p as [p|p|]; try reflexivity). }
+  destruct (x =? 226).
+  { destruct s as [|y [|z s']]; cbn [app]; try reflexivity.
+    - destruct Hc as [-> | ->]; reflexivity.
+    - destruct Hc as [-> | ->]; unfold c_comma, c_lf;
+        destruct y as [|p]; try reflexivity; repeat (destruct p as [p|p|]; try reflexivity). }
+  destruct (x =? 227); [|reflexivity].
+  destruct s as [|y [|z s']]; cbn [app]; try reflexivity.
+  - destruct Hc as [-> | ->]; reflexivity.
+  - destruct Hc as [-> | ->]; unfold c_comma, c_lf;
+      destruct y as [|p]; try reflexivity; repeat (destruct p as [p|p|]; try reflexivity).
 Qed.
 
 Theorem csv_field_roundtrip_std : forall (f : option bytes) c rest, (c = c_comma \/ c = c_lf) ->
